@@ -20,6 +20,8 @@ def time(s=""):
 
 
 time()
+import copy
+
 import astroid
 
 from . import types
@@ -135,6 +137,8 @@ def compile_code(
 
     main_module = src[""] if isinstance(src, dict) else src
     if "pytrapic:" in main_module:
+        # directives apply to this compilation only, not to the caller's object
+        options = copy.copy(options)
         for line in main_module.splitlines():
             if "pytrapic:" not in line:
                 continue
